@@ -1,5 +1,5 @@
 """A small translator from a subset of Python (the arithmetic / bit-twiddling cores of han/*.py) to Lean 4
-`Id.run do` blocks.  Its output, lean/Amshan/GeneratedCode.lean, is REGENERATED from the working tree on every
+`Id.run do` blocks.  Its output, lean/Amshan/GeneratedCode{Fcs,BackOff,P1,Hdlc}.lean, is REGENERATED from the working tree on every
 run; Props/*Gen.lean prove each generated definition equal to the hand-written model, so for these functions
 the tie between model and code is a kernel-checked theorem about a mechanical translation of the source, not a
 sample.  Supported: int/bool/list/Optional[int] values, assignments (plain and augmented), if/else, for over
@@ -336,7 +336,7 @@ class Fn:
 
 
 def generate(han):
-    """han: dict of imported modules. Returns (lean text, problems)."""
+    """han: dict of imported modules. Returns ({file name: lean text}, problems)."""
     ffc, hdlc, dlde, mc = han["fastframecheck"], han["hdlc"], han["dlde"], han["meter_connection"]
     F = ffc.FastFrameCheckSequence16
     H = hdlc.HdlcFrameHeader
@@ -371,16 +371,21 @@ def generate(han):
         Fn("hdlcInformationPosition", H.information_position.fget, [("controlPosition", "Option Nat")], "Option Nat",
            mapping={"self._control_position": ("controlPosition", "optint")}),
     ]
-    out = ["/- GENERATED by harness/pytrans.py from the current /repo working tree (mechanical translation of Python",
-           "   function bodies). Do not edit. Props/*Gen.lean prove these equal to the hand-written models. -/",
-           "import Amshan.Generated", "namespace Amshan.GenCode", ""]
+    groups = {"Fcs": fns[0:5], "BackOff": fns[5:9], "P1": fns[9:10], "Hdlc": fns[10:]}
     problems = []
-    for fn in fns:
-        try:
-            out.append(fn.translate())
-        except Exception as ex:  # Unsupported or a changed signature: emit a stub that breaks the equivalence theorem
-            problems.append(f"pytrans: {fn.name}: {type(ex).__name__}: {ex}")
-            out.append(f"/- untranslatable: {ex} -/\ndef {fn.name} : Unit := ()")
-        out.append("")
-    out.append("end Amshan.GenCode")
-    return "\n".join(out) + "\n", problems
+    files = {}
+    for g, gfns in groups.items():
+        out = ["/- GENERATED by harness/pytrans.py from the current /repo working tree (mechanical translation of Python",
+               "   function bodies). Do not edit. Props/*Gen.lean prove these equal to the hand-written models.",
+               "   One file per property group, so that a change to one function cannot break another group's proofs. -/",
+               "import Amshan.Generated", "namespace Amshan.GenCode", ""]
+        for fn in gfns:
+            try:
+                out.append(fn.translate())
+            except Exception as ex:  # Unsupported or a changed signature: emit a stub that breaks the equivalence theorem
+                problems.append(f"pytrans: {fn.name}: {type(ex).__name__}: {ex}")
+                out.append(f"/- untranslatable: {ex} -/\ndef {fn.name} : Unit := ()")
+            out.append("")
+        out.append("end Amshan.GenCode")
+        files[f"GeneratedCode{g}.lean"] = "\n".join(out) + "\n"
+    return files, problems
